@@ -7,9 +7,9 @@
   * `Gen.*_prog` — (GenPaths.lean) sendto / datagram_received / exit_data / on_data's dispatch as decision trees over the
                IR of IR.lean, translated on every run; this file gives the atoms and actions their meaning.
   * state machine — the rest is a hand-written mirror of
-        TunnelCommunity.on_data (community.py l.965-1008) / exit_data (l.1081-1100),
+        TunnelCommunity.on_data / exit_data (community.py),
         TunnelExitSocket.enable / create_transports / sendto / on_address+resolve / datagram_received(_ipv4/_ipv6) /
-        tunnel_data (exit_socket.py l.145-260),
+        tunnel_data (exit_socket.py),
     using `Gen.is_allowed` as its gate.  Tied to the real objects by the correspondence run (harness/c06.py).
 
   Strings (host names / textual IP addresses) are kept as their UTF-8 bytes.
